@@ -24,7 +24,7 @@ class Boom(Exception):
 
 
 def alphabet(nports):
-    a = ["start", "stop", "ctx_ok", "ctx_exc", "send_then_stop", "send_yield_stop", "stop_from_callback", "start_cancelled_stop", "start_twice_at_once"]
+    a = ["start", "stop", "ctx_ok", "ctx_exc", "send_then_stop", "send_yield_stop", "stop_from_callback", "start_cancelled_stop", "start_twice_at_once", "start_with_a_port_that_cannot_be_bound"]
     for i in range(nports):
         a += [f"send{i}", f"occupy{i}", f"release{i}"]
     a.append("swap_port")
@@ -51,6 +51,9 @@ def legal(history, nports):
             if running or occ:
                 return False
             running = True
+        elif a == "start_with_a_port_that_cannot_be_bound":
+            if running or occ:
+                return False
         elif a in ("send_then_stop", "send_yield_stop", "stop_from_callback"):
             if not running:
                 return False
@@ -261,6 +264,22 @@ class C17(Prop):
                     except Exception as exc:
                         trace.append(f"stop raised {type(exc).__name__}")
                         vio("stop-raised", f"stop raised {type(exc).__name__}: {exc}")
+                    model = False
+                elif a == "start_with_a_port_that_cannot_be_bound":
+                    # the last configured port cannot be bound for another reason than "address in use" (a typo: out of range):
+                    # whatever the error, it is raised and nothing is left listening
+                    saved = ports[-1]
+                    ports[-1] = (65536, 70000, 200003, -1, 2 ** 40)[(n + len(history) + nports) % 5]
+                    try:
+                        await bridge.start()
+                        trace.append("start with an unbindable port returned")
+                        vio("start-ignored-bind-failure", f"start returned although port {ports[-1]} cannot be bound")
+                        await bridge.stop()
+                    except Exception as exc:
+                        trace.append(f"start raised {type(exc).__name__}")
+                        acc.count(f"unbindable_port_start_raised_{type(exc).__name__}")
+                    finally:
+                        ports[-1] = saved
                     model = False
                 elif a == "start_twice_at_once":
                     # two tasks of the application start the same stopped bridge at the same time: whatever each call does, afterwards
